@@ -1,8 +1,9 @@
-(* The query theorems (C02 count, C03 sat, C05 core) instantiated at the vector after a unit
-   edit that left no dead node: the answers are those of the conjunction with the unit clause. *)
+(* The query theorems (C02 count, C03 sat) instantiated at the vector after a unit edit that left
+   no dead node, and the C05 core theorem for EVERY unit edit (dead nodes or not): the answers are
+   those of the conjunction with the unit clause. *)
 From Coq Require Import List ZArith Bool Lia.
 From DD Require Import Model.Circuit Model.Query Model.Edit Proofs.Semantics Proofs.CountsA Proofs.QueryDefs
-  Proofs.C02Proof Proofs.C03Proof Proofs.C05Proof Proofs.EditUnit Proofs.EditWF.
+  Proofs.C02Proof Proofs.C03Proof Proofs.C05Proof Proofs.EditUnit Proofs.EditWF Proofs.EditCore.
 Import ListNotations.
 Open Scope Z_scope.
 
@@ -35,17 +36,24 @@ Proof.
   now rewrite (MCA_unit_edit C n l A (wfq_wf C n HQ) Hl Hp).
 Qed.
 
+(* the core needs no hypothesis on the edited vector (Proofs/EditCore.v): since F22 it is exact
+   also when the edit leaves dead nodes behind (K4) *)
 Theorem unit_then_core (C : circuit) (n : nat) (l : Z) (x : Z) :
-  WFQ C n -> 1 <= Z.abs l <= Z.of_nat n -> 0 < MCA C n [l] -> no_dead (unit_edit C l) = true ->
+  WF C n -> 1 <= Z.abs l <= Z.of_nat n -> 0 < MCA C n [l] ->
   (In x (calculate_core (unit_edit C l) n) <->
    (forall m, In m (Models C n) -> In l m -> In x m)).
+Proof. intros HWF Hl Hp. exact (unit_then_core_exact C n l HWF Hl Hp x). Qed.
+
+(* ... as a statement about the models of the edited vector *)
+Theorem unit_then_core_models (C : circuit) (n : nat) (l : Z) (x : Z) :
+  WF C n -> 1 <= Z.abs l <= Z.of_nat n -> 0 < MCA C n [l] ->
+  (In x (calculate_core (unit_edit C l) n) <->
+   (forall m, In m (Models (unit_edit C l) n) -> In x m)).
 Proof.
-  intros HQ Hl Hp Hnd.
-  pose proof (unit_edit_WFQ C n l HQ Hl Hp Hnd) as HQ'.
-  rewrite (core_syntactic (unit_edit C l) n x HQ' Hnd).
-  rewrite (unit_sem C n l (wfq_wf C n HQ) Hl Hp). split.
-  - intros H m Hm Hlm. apply H. apply filter_In. split; [exact Hm|].
-    cbn. rewrite andb_true_r. now apply memZ_In.
+  intros HWF Hl Hp. rewrite (unit_then_core C n l x HWF Hl Hp).
+  rewrite (unit_sem C n l HWF Hl Hp). split.
   - intros H m Hm. apply filter_In in Hm. destruct Hm as [Hm Hc]. cbn in Hc. rewrite andb_true_r in Hc.
     apply H; [exact Hm|now apply memZ_In].
+  - intros H m Hm Hlm. apply H. apply filter_In. split; [exact Hm|].
+    cbn. rewrite andb_true_r. now apply memZ_In.
 Qed.
